@@ -181,9 +181,15 @@ pub fn judge(h: &History, recs: &[StepRec]) -> Result<u32, Failure> {
 fn enumerate(w: &World, reg: Reg, h: &History, st: &mut Stats) -> Result<(), Failure> {
     let snap = w.front.snapshot();
     for join in [false, true] {
-        for first in 0..72u32 {
-            for second in [0u32, 0x9E3779B9] {
-                let mut rng = DryRng::new(vec![first, second.wrapping_add(first * 7), first ^ 0x2A], 7 + first as u64);
+        // first draws: every value of the bits a selector can look at (0..71) and the values at the limits
+        // of the type (a scaled draw `r * n / MAX` or `r / (MAX / n)` goes out of range only there)
+        for first in (0..72u32).chain([u32::MAX, u32::MAX - 1, u32::MAX - 71, 0x8000_0000, 0x7FFF_FFFF, 0xFFFF_0000, 0x0001_0000]) {
+            // third variant: an entropy source that dwells on the first value for 600 draws (a rejection
+            // loop then simply needs that many draws; any other way out of the loop must still respect
+            // the mask)
+            for second in [0u32, 0x9E3779B9, 1] {
+                let script = if second == 1 { vec![first; 600] } else { vec![first, second.wrapping_add(first * 7), first ^ 0x2A] };
+                let mut rng = DryRng::new(script, 7 + first as u64);
                 let front = &w.front;
                 let o = match catch(|| front.tx_outcome(&mut rng, join)) {
                     Ok(o) => o,
